@@ -648,7 +648,10 @@ def rule_cs_accept(cx, rep, port):
     rep.decide(unesc_ok, 'unescape', fd, 'doubled quotes inside a quoted field are collapsed', 'doubled quotes inside an accepted quoted field are not all collapsed to one')
     rep.decide(preserve_ok, 'preserving mode', fd, 'the preserving mode keeps the whole match', 'the preserving mode does not keep the whole matched text')
     finds = [c for c in ast.walk(fd) if isinstance(c, ast.Call) and isinstance(c.func, ast.Attribute) and c.func.attr in ('find', 'indexOf') and is_name(c.func.value, src) and c.args and is_name(c.args[0], dlm)]
-    rep.decide(len(finds) == 1 and len(finds[0].args) == 2, 'next delimiter', finds[0] if finds else fd, 'unquoted field extends to the next delimiter from the current position', 'the search for the next delimiter does not start at the current position')
+    if len(finds) != 1:
+        rep.undecided('next delimiter', fd, '{} searches for the next delimiter found in the field extractor (expected one)'.format(len(finds)))
+    else:
+        rep.decide(len(finds[0].args) == 2, 'next delimiter', finds[0], 'unquoted field extends to the next delimiter from the current position', 'the search for the next delimiter does not start at the current position')
 
 
 def _delim_follow_test(e, src, dlm):
@@ -884,7 +887,11 @@ def rule_cs_extws(cx, rep, port):
     if len(loops) == 1:
         t = inline_single_defs(loops[0].test, fd)
         ok_loop = isinstance(t, ast.Compare) and len(t.ops) == 1 and isinstance(t.ops[0], ast.Lt) and isinstance(t.left, ast.Name) and isinstance(t.comparators[0], ast.Call) and dotted(t.comparators[0].func) == 'len' and is_name(t.comparators[0].args[0], src)
-    rep.decide(ok_loop, 'scan loop', loops[0] if loops else fd, 'fields are extracted while position < len(line)', 'scan loop bound not recognised / changed')
+    cmp_shape = len(loops) == 1 and isinstance(t, ast.Compare) and len(t.ops) == 1 and isinstance(t.left, ast.Name) and src in names_in(t.comparators[0])
+    if ok_loop or cmp_shape:
+        rep.decide(ok_loop, 'scan loop', loops[0], 'fields are extracted while position < len(line)', 'the scan loop runs while `{}` instead of position < len(line)'.format(node_text(t, 60)))
+    else:
+        rep.undecided('scan loop', loops[0] if loops else fd, 'the loop that extracts field after field was not recognised ({} while loops in the splitter)'.format(len(loops)))
     # the line warning only ever grows: `w = w or x`, or `w = True` under a condition; a plain overwrite loses earlier fields' warnings
     rets = [r for r in walk_no_nested(fd) if isinstance(r, ast.Return) and isinstance(r.value, (ast.Tuple, ast.List)) and len(r.value.elts) == 2 and isinstance(r.value.elts[1], ast.Name)]
     if not rets or not loops:
@@ -933,6 +940,85 @@ def rule_cs_dispatch(cx, rep, port):
     """reader (smart_split) and writer dispatch tables are total over the five policies and pair each policy with matching split/join"""
     p = cx.port(port)
     fd = p.func('csv_utils', 'smart_split')
+    modelled = _smart_split_model(cx, port, p, fd)
+    if modelled is not None:
+        wrong_, warn_ = modelled
+        rep.decide(not wrong_, 'reader dispatch', fd, 'simple=split, whitespace=runs, monocolumn=identity, quoted/quoted_rfc=quoted splitter (smart_split evaluated for each policy name on an abstract line)', 'policy -> splitter table has {}'.format(wrong_))
+        rep.decide(not warn_, 'reader dispatch warnings', fd, 'non-quoted policies never warn', 'a non-quoted policy returns a warning flag ({})'.format(', '.join(warn_)))
+    else:
+        with rep.as_fallback('smart_split is outside the abstract interpreter'):
+            _reader_dispatch_shape(cx, rep, port, p, fd)
+    _writer_dispatch(cx, rep, port, p)
+
+
+def _smart_split_model(cx, port, p, fd):
+    """smart_split(src, dlm, policy, flag) evaluated for each of the five policy names with an abstract line, delimiter and flag:
+    ({policy: what is wrong}, [policies that can warn]) or None when the function is outside the abstract interpreter"""
+    from .. import absexec as AX
+    if len(fd.args.args) != 4:
+        return None
+    want = {'simple': 'plain-split', 'whitespace': 'whitespace-runs', 'monocolumn': 'identity', 'quoted': 'quoted', 'quoted_rfc': 'quoted'}
+    wrong, warn = {}, []
+    for pol in POLICIES:
+        src, dlm, flag = AX.Abs('Src'), AX.Abs('Dlm', truth=True), AX.Abs('Flag')
+
+        def on_call(ex, node, fname, recv, args):
+            short = node.func.attr if isinstance(node.func, ast.Attribute) else fname
+            if short == 'split_quoted_str' and not isinstance(node.func, ast.Attribute) or fname.endswith('.split_quoted_str'):
+                return AX.Abs('quoted', ok=(len(args) == 3 and args[0] is src and args[1] is dlm and args[2] is flag))
+            if short == 'split_whitespace_separated_str':
+                return AX.Abs('whitespace-runs', ok=(len(args) == 2 and args[0] is src and args[1] is flag))
+            if short == 'split' and recv is src:
+                return AX.Abs('plain-split', ok=(len(args) == 1 and args[0] is dlm))
+            if recv is src and short in ('find', 'indexOf', 'includes') and len(args) == 1 and (args[0] is dlm or args[0] == '"'):
+                # does the line contain the delimiter / a double quote?  either (remembered for the run)
+                what = 'dlm' if args[0] is dlm else 'quote'
+                key = ('contains', what)
+                if key not in ex.run.state:
+                    ex.run.state[key] = ex.choose('line contains ' + what, [False, True])
+                has = ex.run.state[key]
+                return has if short == 'includes' else (0 if has else -1)
+            return AX.NOT_HANDLED
+        ex = AX.Explorer(p, 'csv_utils', on_call=on_call, max_choices=3)
+        try:
+            runs, cut = ex.explore(fd, [src, dlm, pol, flag])
+        except (Undecided, KeyError, IndexError, TypeError, AttributeError) as e_:
+            import os
+            if os.environ.get('RBQL_VERIF_DEBUG'):
+                print('smart_split model gave up:', type(e_).__name__, e_)
+            return None
+        if cut or not runs or any(r.outcome[0] != 'return' for r in runs):
+            return None
+        for r in runs:
+            v = r.outcome[1]
+            facts = {k[1]: val for k, val in r.state.items() if isinstance(k, tuple) and len(k) == 2 and k[0] == 'contains'}
+            if isinstance(v, AX.Abs) and v.kind == 'quoted':
+                got, flagv, ok = 'quoted', None, v.props.get('ok')
+            elif isinstance(v, (list, tuple)) and len(v) == 2:
+                f0, flagv = v
+                if isinstance(f0, AX.Abs) and f0.kind in ('plain-split', 'whitespace-runs', 'quoted'):
+                    got, ok = f0.kind, f0.props.get('ok')
+                elif isinstance(f0, list) and len(f0) == 1 and f0[0] is src:
+                    got, ok = 'identity', True
+                else:
+                    return None
+            else:
+                return None
+            # a shortcut that is the same function on the lines it applies to: a line without the delimiter splits into itself
+            # (plain split; the quoted splitter when the line has no quote either)
+            same = got == want[pol] or (got == 'identity' and facts.get('dlm') is False and (pol == 'simple' or (pol in ('quoted', 'quoted_rfc') and facts.get('quote') is False))) \
+                or (got == 'plain-split' and ok and pol in ('quoted', 'quoted_rfc') and facts.get('quote') is False)
+            when = ' for a line {}'.format(' and '.join('{} {}'.format('with' if val else 'without', 'the delimiter' if k == 'dlm' else 'a double quote') for k, val in sorted(facts.items()))) if facts else ''
+            if not same:
+                wrong[pol] = got + when
+            elif not ok:
+                wrong[pol] = got + ' with other arguments than (line, delimiter, flag)'
+            if pol in ('simple', 'whitespace', 'monocolumn') and same and flagv is not False:
+                warn.append(pol)
+    return wrong, warn
+
+
+def _reader_dispatch_shape(cx, rep, port, p, fd):
     from .. import pathsem
     pol_param = fd.args.args[2].arg
     table = {}
@@ -980,7 +1066,9 @@ def rule_cs_dispatch(cx, rep, port):
     # warnings of the non-quoted policies are constant False
     nonq = [table[k] for k in ('simple', 'whitespace', 'monocolumn') if k in table]
     rep.decide(all(isinstance(v, (ast.Tuple, ast.List)) and len(v.elts) == 2 and is_false(v.elts[1]) for v in nonq), 'reader dispatch warnings', fd, 'non-quoted policies never warn', 'a non-quoted policy returns a warning flag')
-    # writer
+
+
+def _writer_dispatch(cx, rep, port, p):
     w = p.cls('rbql_csv', 'CSVWriter')
     init = [m for m in w.body if isinstance(m, ast.FunctionDef) and m.name == '__init__'][0]
     seen = {}
